@@ -36,6 +36,41 @@ pub fn helper_main(args: &[String]) {
             }
             std::thread::sleep(std::time::Duration::from_secs(3600));
         },
+        Some("fuzz-seeds") => {
+            // helper fuzz-seeds <target> <dir>: deterministic seed corpus from the proptest generators
+            use proptest::strategy::{Strategy, ValueTree};
+            use proptest::test_runner::{Config, RngAlgorithm, TestRng, TestRunner};
+            let target = args.get(1).map(|s| s.as_str()).unwrap_or("");
+            let dir = std::path::PathBuf::from(args.get(2).map(|s| s.as_str()).unwrap_or("."));
+            let _ = std::fs::create_dir_all(&dir);
+            let mut runner = TestRunner::new_with_rng(Config::default(), TestRng::from_seed(RngAlgorithm::ChaCha, &[7u8; 32]));
+            for i in 0..48 {
+                let bytes: Vec<u8> = match target {
+                    "elf_ident" => {
+                        let spec = crate::props::c14::spec_strategy().new_tree(&mut runner).unwrap().current();
+                        crate::vcore::elf::build(&spec).bytes
+                    }
+                    "maps_text" => {
+                        let c = crate::props::c13::case_strategy().new_tree(&mut runner).unwrap().current();
+                        crate::props::c13::render(&crate::props::c13::resolve(&c)).into_bytes()
+                    }
+                    _ => {
+                        let c = crate::props::c02::name_case_strategy().new_tree(&mut runner).unwrap().current();
+                        let mut v = vec![i as u8];
+                        v.extend_from_slice(&c.dir);
+                        v.push(b'/');
+                        v.extend_from_slice(&c.stem);
+                        v.extend_from_slice(b".so");
+                        for comp in &c.comps {
+                            v.push(b'.');
+                            v.extend_from_slice(comp);
+                        }
+                        v
+                    }
+                };
+                let _ = std::fs::write(dir.join(format!("seed-{i:02}")), bytes);
+            }
+        }
         _ => {
             eprintln!("unknown helper");
             std::process::exit(3)
